@@ -747,3 +747,35 @@ def implied_substitutions(constraints):
                 mapping[a] = val
                 break
     return mapping
+
+
+
+def poly_derivative(p, atom):
+    out = {}
+    for m, c in p.t.items():
+        d = dict(m)
+        e = d.get(atom, 0)
+        if e == 0:
+            continue
+        if e == 1:
+            del d[atom]
+        else:
+            d[atom] = e - 1
+        key = tuple(sorted(d.items(), key=lambda t: (_akey(t[0]))))
+        out[key] = out.get(key, 0) + c * e
+    q = Poly()
+    q.t = {k: Fraction(v) for k, v in out.items() if v != 0}
+    return q
+
+
+def rat_derivative(r, atom):
+    """d/d(atom) of the rational form n/d"""
+    dn, dd = poly_derivative(r.n, atom), poly_derivative(r.d, atom)
+    return Rat(dn * r.d - r.n * dd, r.d * r.d)
+
+
+def derivative_sign(r, atom, ranges):
+    """sign of d(n/d)/d(atom) = (n'd - nd')/d^2: only the numerator matters (d^2 > 0 wherever r is defined)"""
+    dn, dd = poly_derivative(r.n, atom), poly_derivative(r.d, atom)
+    num = dn * r.d - r.n * dd
+    return rat_sign(Rat(num), ranges)
